@@ -75,7 +75,11 @@ func K1_chunktable() {
 // H09_layout: a file written by Persist decodes, with a reader written from the documented layout only,
 // to the content that went in.
 func H09_layout() {
-	docs, sp := vGenBatch(vStdCfg("", "d", 1+vChoice("nDocs", vParam("maxDocs", 2)), -1))
+	wide := -1
+	if vParam("wide", 0) > 0 {
+		wide = vChoice("wide", vParam("wide", 0)) // one number at a time is full width
+	}
+	docs, sp := vGenBatch(vStdCfg("", "d", 1+vChoice("nDocs", vParam("maxDocs", 2)), wide))
 	mode := vChunkMode()
 	var z ZapPlugin
 	seg, _, err := z.newWithChunkMode(docs, mode)
